@@ -1,6 +1,7 @@
 import Gtree.Lemmas.Validate
 import Gtree.Props.C05
 import Gtree.Lemmas.Confined
+import Gtree.Lemmas.MkOps
 /-
   C07 — names are validated first: a tree containing a name that is not a single valid path element
   is rejected, and (without the massive option) nothing at all is created – for From-Markdown and
@@ -164,5 +165,48 @@ theorem C07_confined_md (f : Fmt) (exts : List Bytes) (ts : List Bytes) (hts : t
   | none =>
     simp only [hg] at hp
     exact C07_confined f exts ts hts hte dry _ fs p hp
+
+
+/-- **C07 in the massive mode, for every schedule.**  There each root is validated and created by concurrent
+    workers, so the file-system operations of different roots happen in an order the scheduler chooses, a
+    root with an invalid name is dropped while the others go on, and a failure stops only its own root.
+    Whatever the order — ANY sequence of operations (`MkdirAll` / `Create`) that belong to nodes of roots which
+    passed their validation, interleaved in any way, repeated any number of times, cut off at any point, each
+    running to its end whatever the others did — with a clean relative target the only keys of the file
+    system whose `lookup` can differ afterwards are prefixes of the target, the target and paths below it.
+    (The simple mode is the special case `mkNodes_eq_runOps`: the nodes' operations in pre-order.) -/
+theorem C07_confined_massive (f : Fmt) (exts : List Bytes) (ts : List Bytes) (hts : ts ≠ []) (hte : ∀ e ∈ ts, Elem e)
+    (roots : List T) (ops : List FsOp)
+    (hops : ∀ op ∈ ops, ∃ t ∈ roots, validateVisits (growRoot f t) = none ∧ ∃ v ∈ growRoot f t, op ∈ opsOf (key ts) exts v)
+    (fs : FS) (p : Bytes) (hp : (applyAll fs ops).lookup p ≠ fs.lookup p) : InTarget ts p := by
+  apply Classical.byContradiction
+  intro hnot
+  apply hp
+  -- the nodes of the validated roots
+  let nodes : List Visit := (roots.filter (fun t => (validateVisits (growRoot f t)).isNone)).flatMap (growRoot f)
+  apply applyAll_changes (key ts) exts nodes ops fs p
+  · intro op hop
+    obtain ⟨t, ht, hval, v, hv, hin⟩ := hops op hop
+    refine ⟨v, ?_, hin⟩
+    simp only [nodes, List.mem_flatMap, List.mem_filter]
+    exact ⟨t, ⟨ht, by simp [hval]⟩, hv⟩
+  · intro v hv hpt
+    simp only [nodes, List.mem_flatMap, List.mem_filter] at hv
+    obtain ⟨t, ⟨_, hval⟩, hvt⟩ := hv
+    have hval' : validateVisits (growRoot f t) = none := by
+      cases h : validateVisits (growRoot f t) with
+      | none => rfl
+      | some e => simp [h] at hval
+    have hvalid : AllElemT t := by
+      apply allElemT_of_visits f t
+      intro w hw
+      exact elem_of_singleElem _ (validateVisit_none_single w (validateVisits_none_mem _ hval' w hw))
+    exact hnot (touched_inTarget f exts ts hts hte t hvalid v hvt p hpt)
+
+/-- the operation view is the simple mode's mkdirer: `mkNodes` runs its nodes' operations in pre-order and
+    stops at the first failure -/
+theorem C07_simple_is_ops_in_order (target : Bytes) (exts : List Bytes) (vs : List Visit) (fs : FS) :
+    mkNodes target exts fs vs = runOps fs (vs.flatMap (opsOf target exts)) :=
+  mkNodes_eq_runOps target exts vs fs
 
 end Gtree
